@@ -45,7 +45,6 @@ class AAAnswer(DiameterAnswer):
                     "result_code": ResultCodeAVP,
                     "origin_host": OriginHostAVP,
                     "origin_realm": OriginRealmAVP,
-                    "destination_realm": DestinationRealmAVP,
     }
     optionals = { 
                     #"drmp": DrmpAVP,
